@@ -491,8 +491,18 @@ def emit() -> str:
     return "\n".join(L) + "\n"
 
 
+# ------------------------------------------------------------------------------------------------ maintainer's helper
+def skeleton() -> str:
+    """Print the committed discharge table's entries for the CURRENT tree with `.todo` discharges, to be merged by hand into
+    lean/PrimaiteModel/Lemmas/NondetDischarge.lean (python -m harness.extract.nondet --skeleton)."""
+    return ",\n".join(f"  ({lean_site(s)}, .todo)" for s in collect())
+
+
 if __name__ == "__main__":
     import sys
-    for s in collect():
-        print(s)
-    print(stats(), file=sys.stderr)
+    if "--skeleton" in sys.argv:
+        print(skeleton())
+    else:
+        for s_ in collect():
+            print(s_)
+        print(stats(), file=sys.stderr)
